@@ -117,6 +117,11 @@ func (srv *Server) ServeDNS(w dns.ResponseWriter, r *dns.Msg) {
 }
 
 func (srv *Server) handleRequest(wkr *mgr.WorkerCtx, w dns.ResponseWriter, r *dns.Msg) {
+	// The server hands over header-only messages with an empty question section.
+	if len(r.Question) == 0 {
+		srv.replyNotFound(wkr, w, r)
+		return
+	}
 	q := r.Question[0]
 	queryName := strings.ToLower(q.Name)
 
@@ -281,11 +286,15 @@ func (srv *Server) replyMsg(wkr *mgr.WorkerCtx, w dns.ResponseWriter, reply *dns
 	// TODO: Evaluate other options
 	srv.replyLock.Lock()
 	defer srv.replyLock.Unlock()
+	var name string
+	if len(reply.Question) > 0 {
+		name = reply.Question[0].Name
+	}
 	err := srv.dnsServer.PacketConn.SetWriteDeadline(time.Now().Add(10 * time.Millisecond))
 	if err != nil {
 		wkr.Error(
 			"failed to set write deadline for dns response",
-			"name", reply.Question[0].Name,
+			"name", name,
 			"rcode", reply.Rcode,
 			"err", err,
 		)
@@ -296,7 +305,7 @@ func (srv *Server) replyMsg(wkr *mgr.WorkerCtx, w dns.ResponseWriter, reply *dns
 	if err != nil {
 		wkr.Error(
 			"failed to write dns response",
-			"name", reply.Question[0].Name,
+			"name", name,
 			"rcode", reply.Rcode,
 			"err", err,
 		)
